@@ -770,6 +770,34 @@ impl W3Exec {
             }
         }
 
+        // ---- the environment's book survives a JSON round trip after any step (oversized ones included) ----
+        if has(&cfg, w3mon::BOOKSNAP) {
+            for a in 0..cfg.assets {
+                let env = &self.env;
+                let lv = cfg.levels;
+                let r = guard(|| {
+                    let js = env.book_json(a);
+                    book_from_json(lv, &js).map(|b| b.obs(0, false))
+                });
+                match r {
+                    Err(msg) => return Err(self.viol("panic", "book snapshot save/load", "no abort".into(), msg)),
+                    Ok(Err(e)) => {
+                        return Err(self
+                            .viol("snapshot-diverged", &format!("asset{}.load", a), "Ok".into(), format!("Err({})", e))
+                            .detail("the JSON snapshot of the environment's live book does not load back".into()))
+                    }
+                    Ok(Ok(o)) => {
+                        if let Some(d) = post_b[a].diff(&o) {
+                            return Err(self
+                                .viol("snapshot-diverged", &format!("asset{}.{}", a, d.0), d.1, d.2)
+                                .detail("the environment's live book differs from its own JSON snapshot reloaded".into()));
+                        }
+                    }
+                }
+            }
+            self.stats.fault("env_book_json_round_trip");
+        }
+
         // ---- recorded histories (C11) ----
         if has(&cfg, w3mon::RECORDS) {
             self.check_records(&pre, &post, start, n)?;
